@@ -30,11 +30,11 @@ Record t_le (T T' : truth) : Prop := mkTLE {
   tle_wrote : forall X w, t_wrote T X w -> t_wrote T' X w;
   tle_max : forall X, t_max T X <= t_max T' X;
   tle_hb : forall X, t_hb T X <= t_hb T' X;
-  tle_fresh : forall X w, t_wrote T' X w -> ~ t_wrote T X w -> t_max T X < lw_ver w
+  tle_fresh : forall X w, t_wrote T' X w -> t_wrote T X w \/ t_max T X < lw_ver w
 }.
 
 Lemma t_le_refl T : t_le T T.
-Proof. split; auto; try (intros; lia). intros X w H Hn. contradiction. Qed.
+Proof. split; auto; try (intros; lia). Qed.
 
 (* ---- integrity of a copy of member X ---- *)
 Record copy_int (T : truth) (X : id) (c : copy) : Prop := mkCInt {
